@@ -281,7 +281,10 @@ def observe(call):
             args = {'script': script, 'agency_id': 'MD', 'id': 'TS1'}
             fn = vtlengine.generate_sdmx
         elif api == 'run_sdmx':
-            args = _sdmx_args(script, call, ds, dps)
+            try:
+                args = _sdmx_args(script, call, ds, dps)
+            except Exception as e:  # noqa  pysdmx (not the engine) could not build its PandasDataset from this table
+                return {'id': call['id'], 'skip': 'pysdmx input not built: %r' % e}
             args.update(kw)
             fn = vtlengine.run_sdmx
         else:
